@@ -397,8 +397,37 @@ def _cost_formula(ctx, prog, step):
     elems = mir.subterms(rt, lambda x: x[0] == 'agg' and x[1] == 'array')
     ok = False
     found = show(rt, maxdepth=4)
+    E = None
     if len(elems) == 1 and len(elems[0]) == 3:
-        E = elems[0][2]
+        E = elems[0][2]                      # max over a one-element array
+    elif not elems and isinstance(rt, tuple) and rt[0] == 'bin':
+        E = rt                               # the sum itself
+    elif not elems and isinstance(rt, tuple) and rt[0] == 'var':
+        # accumulator: total = 0.0; for i in 0..6 { total += |from[i] - to[i]| * coefficients[i] }
+        defs = [d for d in cb.defs().get(rt[2], []) if d[4]]
+        terms = [strip(cb._def_term(d)) for d in defs]
+        zero = [t for t in terms if util.const_val(t) == 0.0]
+        acc = [t for t in terms if isinstance(t, tuple) and t[0] == 'bin' and t[1] == 'Add' and rt in (strip(t[2]), strip(t[3]))]
+        if len(terms) == 2 and len(zero) == 1 and len(acc) == 1:
+            inc = strip(acc[0][3]) if strip(acc[0][2]) == rt else strip(acc[0][2])
+            lv = [x for x in mir.subterms(inc, lambda y: y[0] == 'idx')]
+            its = {strip(x[2]) for x in lv}
+            if len(its) == 1:
+                it = next(iter(its))
+                src = util.loop_source(it)
+                r = util.range_of(src) if src is not None else None
+                if r is not None and util.const_val(r[0]) == 0 and util.const_val(r[1]) == 6 and r[2] in ([], ['into_iter']):
+                    # unroll the loop symbolically: substitute the index by 0..5 and add up
+                    def subst(t, k):
+                        if not isinstance(t, tuple):
+                            return t
+                        if strip(t) == it:
+                            return ('const', 'usize', k, None)
+                        return (t[0],) + tuple(subst(y, k) if isinstance(y, tuple) else y for y in t[1:])
+                    E = subst(inc, 0)
+                    for k in range(1, 6):
+                        E = ('bin', 'Add', E, subst(inc, k))
+    if E is not None:
 
         def atomize(t):
             return None
